@@ -26,7 +26,7 @@ MAGIC = 1888
 COMPACT_KEY = b"compact_rev_key"
 
 # oracle hits that do not change the store: evaluation of the script continues after them
-FLAG_ONLY = {"txn-unguarded-delete-missing-flag", "range-count-limited", "range-count-bounds-unchecked"}
+FLAG_ONLY = {"range-count-limited", "range-count-bounds-unchecked"}
 
 
 def unhx(s):
@@ -332,8 +332,7 @@ class PyEtcd:
 # of `KB.C16.Canonical`, plus the zero-guard delete which the property's quantifier names)
 
 def plain_get(o, k):
-    return o["t"] == "range" and o["key"] == k and not o["end"] and o["rev"] == 0 and o["limit"] == 0 and \
-        not (set(o["flags"]) & set("ck"))
+    return o["t"] == "range" and o["key"] == k and not o["end"] and o["rev"] == 0 and not (set(o["flags"]) & set("ck"))
 
 
 def mod_eq(c):
@@ -420,7 +419,7 @@ def oracle(case, tolerated=()):
             if is_compact_shape(tx):
                 continue        # deliberate emulation, correspondence only (see assumptions)
             if shp is not None and shp[0] == "gdelete0" and res[0] == "err":
-                continue        # a zero-guarded delete may also be refused as an unsupported shape
+                continue        # a zero-guarded delete is refused as an unsupported shape (kv.go after 4c41c58)
             if shp is None:
                 # any other shape: rejected with an error, never executed as something else
                 if res[0] != "err":
@@ -428,6 +427,8 @@ def oracle(case, tolerated=()):
                     break
                 continue
             exp = ref.eval_txn(tx)
+            if res[0] == "err" and res[1] == "drift" and tx["cmp"] and tx["cmp"][0]["arg"] > max(ref.rev, committed) + 1:
+                continue        # an expectation above the next revision: refused with a drift error (shim_sound: "error or etcd's answer")
             if res[0] != "ok":
                 hit(i, "a supported transaction was answered with %s" % (res,), "txn-canonical-error")
                 break
@@ -722,7 +723,7 @@ def far_unsupported(r, keys):
 
 
 def near_misses(r, keys, sh):
-    """Non-canonical transactions the recognisers of kv.go let through (named by category)."""
+    """Near misses of the supported shapes (the recognisers of kv.go let them through before 4c41c58)."""
     k = r.choice(keys)
     k2 = r.choice([x for x in keys if x != k])
     v = r.choice(GOOD_VALUES)
@@ -744,6 +745,8 @@ def near_misses(r, keys, sh):
         txn([cmp_(k, cur + 1)], [put(k, v)], [rng(k, rev=max(INIT, cur - 1))]), # failure Get at an old revision
         txn([cmp_(k, cur + 1)], [dele(k)], [rng(k, flags="c")]),                # failure Get count_only
         txn([cmp_(k, cur + 1)], [dele(k)], [rng(k, PREFIX + b"0")]),            # failure branch ranged read
+        txn([cmp_(k, 0)], [dele(k)], [rng(k)]),                                 # guarded delete with a zero guard
+        txn([cmp_(k, cur + 1)], [dele(k)], [rng(k, flags="k")]),                # failure Get keys_only
     ]
     return out
 
@@ -758,45 +761,71 @@ def gen_unsupported(seed, i, engine, n_far, with_near=True):
     full = render_range(PREFIX + b"/", PREFIX + b"0")
     lines.append(full)
     for _ in range(n_far):
-        lines += [render_txn(far_unsupported(r, keys)), "rev", full]
+        # a transaction of no supported shape, or (1 in 4) a near miss of a supported one: key mismatch,
+        # range_end, zero guard, put flags, Get options — all must be refused and leave the store unchanged
+        if with_near and r.random() < 0.25:
+            t = r.choice(near_misses(r, keys, sh))
+        else:
+            t = far_unsupported(r, keys)
+        lines += [render_txn(t), "rev", full]
         if r.random() < 0.2:
             lines += gen_write(r, sh, keys)
-    if with_near:
-        lines += [render_txn(r.choice(near_misses(r, keys, sh))), "rev", full]
     return EtcdCase("etcd", lines, {"engine": engine, "kind": "unsupported"})
 
 
-# ------------------------------------------------------------------ witnesses: the scripts of the `decide`d
-# counterexample theorems of KB.Props.C16 (same keys, values and revisions), replayed on every run
+# ------------------------------------------------------------------ witnesses: the scripts of the concrete
+# theorems of KB.Props.C16 (same keys, values and revisions), replayed on every run
 
 A, B, C_, D = b"/r/a", b"/r/b", b"/r/c", b"/r/d"
 V1, V2, V3, V9 = b"v1", b"v2", b"v3", b"v9"
 FULL = render_range(PREFIX + b"/", PREFIX + b"0")
+HI = PREFIX + b"0"
 
 
 def witness_cases(engine):
     pre = [cfg_line(engine), render_txn(t_create(A, V1)), "rev", render_txn(t_create(B, V2)), "rev",
            render_txn(t_create(C_, V3)), "rev"]
+
+    def refused(txns):
+        # every one must be answered with an error; the full-range read after it must show the three keys unchanged
+        return pre + [x for t in txns for x in (render_txn(t), "rev", FULL)]
     w = {}
-    # theorem key_mismatch_executed: If(mod(/r/a)=0) Then(Put /r/d) run as a create of /r/d although /r/a exists
-    w["key_mismatch_create"] = pre + [render_txn(txn([cmp_(A, 0)], [put(D, V9)], [])), "rev", FULL]
-    # theorem key_mismatch_update_writes_compare_key: the put key is ignored, the compare key is written
-    w["key_mismatch_update"] = pre + [render_txn(txn([cmp_(A, INIT + 1)], [put(B, V9)], [rng(A)])), "rev", FULL]
-    w["key_mismatch_delete"] = pre + [render_txn(txn([cmp_(A, INIT + 1)], [dele(B)], [rng(A)])), "rev", FULL]
-    # theorem ranged_delete_executed_as_point
-    w["ranged_delete"] = pre + [render_txn(txn([cmp_(B, INIT + 2)], [dele(B, PREFIX + b"0")], [rng(B)])), "rev", FULL]
-    w["ranged_delete_unguarded"] = pre + [render_txn(txn([], [rng(B), dele(B, PREFIX + b"0")], [])), "rev", FULL]
-    # theorem mod0_delete_unconditional
-    w["mod0_delete_existing"] = pre + [render_txn(t_gdelete(C_, 0)), "rev", FULL]
-    w["mod0_delete_missing"] = pre + [render_txn(t_gdelete(D, 0)), "rev", FULL]
-    # theorem unguarded_delete_missing_flag
-    w["unguarded_delete_missing"] = pre + [render_txn(t_udelete(D)), "rev", FULL]
-    # theorem update_put_flags_ignored (ignore_value: etcd keeps the old value, kubebrain writes the empty one)
-    w["update_ignore_value"] = pre + [render_txn(txn([cmp_(A, INIT + 1)], [put(A, b"", flags="v")], [rng(A)])), "rev", FULL]
-    # theorem failure_get_options_ignored
-    w["failure_get_old_revision"] = pre + [render_txn(t_update(A, V9, INIT + 1)), "rev",
-                                           render_txn(txn([cmp_(A, INIT + 1)], [put(A, V2)], [rng(A, rev=INIT + 3)])), "rev", FULL]
-    w["failure_get_count_only"] = pre + [render_txn(txn([cmp_(A, INIT + 2)], [put(A, V2)], [rng(A, flags="c")])), "rev", FULL]
+    # theorem key_mismatch_rejected (formerly: executed as a create of /r/d, an update of the COMPARE key, ...)
+    w["key_mismatch_rejected"] = refused([
+        txn([cmp_(A, 0)], [put(D, V9)], []),
+        txn([cmp_(A, INIT + 1)], [put(B, V9)], [rng(A)]),
+        txn([cmp_(A, INIT + 1)], [put(A, V9)], [rng(B)]),
+        txn([cmp_(A, INIT + 1)], [dele(B)], [rng(A)]),
+        txn([], [rng(B), dele(A)], [])])
+    # theorem ranged_delete_rejected (formerly: executed as a point delete)
+    w["ranged_delete_rejected"] = refused([
+        txn([cmp_(B, INIT + 2)], [dele(B, HI)], [rng(B)]),
+        txn([], [rng(B), dele(B, HI)], [])])
+    # theorem mod0_delete_rejected (formerly: an unconditional delete of an existing key)
+    w["mod0_delete_rejected"] = refused([t_gdelete(C_, 0), t_gdelete(D, 0)])
+    # theorem update_put_flags_rejected (formerly: ignore_value overwrote the value with the empty one)
+    w["update_put_flags_rejected"] = refused([
+        txn([cmp_(A, INIT + 1)], [put(A, b"", flags="v")], [rng(A)]),
+        txn([cmp_(A, INIT + 1)], [put(A, V9, flags="p")], [rng(A)]),
+        txn([cmp_(A, INIT + 1)], [put(A, V9, flags="l")], [rng(A)])])
+    # theorem op_options_rejected (formerly: executed as the plain shape)
+    w["op_options_rejected"] = refused([
+        txn([cmp_(A, INIT + 1, end=HI)], [put(A, V9)], [rng(A)]),
+        txn([cmp_(A, INIT + 2)], [put(A, V2)], [rng(A, flags="c")]),
+        txn([cmp_(A, INIT + 1)], [put(A, V2)], [rng(A, rev=INIT + 3)]),
+        txn([cmp_(A, INIT + 2)], [dele(A)], [rng(A, HI)]),
+        txn([cmp_(A, INIT + 2)], [dele(A)], [rng(A, flags="k")])])
+    # theorems unguarded_delete_missing_flag / unguarded_delete_missing_witness: Succeeded=true now, as etcd
+    w["unguarded_delete_missing"] = pre + [render_txn(t_udelete(D)), "rev", FULL, render_txn(t_udelete(A)), "rev", FULL]
+    # a point Get with a limit is still the plain shape (kv.go isPlainGet, KB.Etcd.PlainGet): answered as etcd answers
+    w["plain_get_with_limit"] = pre + [render_txn(txn([cmp_(A, INIT + 2)], [put(A, V2)], [rng(A, limit=5)])), "rev", FULL,
+                                       render_txn(txn([cmp_(A, INIT + 1)], [put(A, V2)], [rng(A, limit=1)])), "rev", FULL]
+    # expectations outside 0..dealt+1 on well-shaped transactions (shim_sound: a drift error or etcd's answer)
+    w["far_expectations"] = pre + [render_txn(t_update(A, V9, INIT + 4)), "rev", FULL,        # = dealt+1: compare fails
+                                   render_txn(t_update(A, V9, INIT + 500)), "rev", FULL,      # future: drift error
+                                   render_txn(txn([cmp_(A, -5)], [put(A, V9)], [rng(A)])), "rev", FULL,   # negative: drift error
+                                   render_txn(t_gdelete(D, INIT + 500)), "rev", FULL,         # missing key: not found
+                                   render_txn(t_gdelete(A, INIT + 500)), "rev", FULL]         # existing key: drift error
     # theorem count_bounds_unchecked
     w["count_bounds"] = pre + [render_range(PREFIX + b"/", b"\x00", flags="c"), render_range(C_, A, flags="c"),
                                render_range(PREFIX + b"/", b"\x00"), render_range(C_, A)]
@@ -817,8 +846,6 @@ def witness_cases(engine):
                                     render_range(PREFIX + b"/", PREFIX + b"0", limit=-2),
                                     "put %s %s" % (hx(A), hx(V1)), "delrange %s -" % hx(A), "compact 5",
                                     render_txn(txn([cmp_(COMPACT_KEY, 0, "ver")], [put(COMPACT_KEY, b"1")], [rng(COMPACT_KEY)])), "rev", FULL]
-    if engine == "tikv":
-        del w["update_ignore_value"]      # the tikv adapter refuses empty values (an engine matter, not the shim's)
     cases = [EtcdCase("etcd", lines, {"engine": engine, "kind": "witness", "witness": name}) for name, lines in w.items()]
     # the magic revision: a legal List at revision 1888 is answered with partition borders
     # theorem magic_revision_hijacked (same three creates, from revision 1885)
@@ -856,52 +883,58 @@ def check(rep, tier, seed):
         n_hist, n_ops, n_uns, n_far = 2400, 100, 1200, 24
     cases = [gen_history(seed, i, ENGINES[i % len(ENGINES)], n_ops) for i in range(n_hist)]
     cases += [gen_unsupported(seed, i, ENGINES[i % len(ENGINES)], n_far, with_near=(i % 4 != 0)) for i in range(n_uns)]
+    wit = []
     for e in ENGINES:
-        cases += witness_cases(e)
-    core.run_cases(cases)
+        wit += witness_cases(e)
+    # the cheap, most telling scripts first; then batches — the run stops at the first confirmed violation
+    # (a tree on which model and implementation differ must not cost one timeout per remaining script)
+    cases = wit + cases
     shapes = {}
-    for c in cases:
-        rep.count_case(c)
-        histogram(rep, c)
-        for ln in c.lines:
-            if ln.startswith("txn "):
-                s = shape_of(parse_txn_line(ln))
-                k = s[0] if s else "other"
-                shapes[k] = shapes.get(k, 0) + 1
-    rep.cov["txn_shapes_issued"] = shapes
-    rep.cov["rule"] = ("scripts for the `etcd` suite: random histories of the four Kubernetes transaction shapes "
-                       "(correct / stale / zero expectations over existing, missing and deleted keys) interleaved with point, range, "
-                       "limited and count_only reads and prefix watches; scripts of grammar-generated unsupported transactions each "
-                       "followed by a full-range read; the fixed witness scripts of the counterexample theorems. A script is counted "
-                       "as distinct by the hash of its text; all generated scripts contain writes and reads (non-trivial).")
     found = False
     hits_by_sig = {}
     inconclusive = 0
-    for c in cases:
-        hits = oracle(c)
-        bad = False
-        for (i, desc, sig) in hits:
-            hits_by_sig[sig] = hits_by_sig.get(sig, 0) + 1
-            tag = sig
-            if core.handle_oracle_hit(rep, "C16", tag, c, desc, sig):
-                bad = True
+    BATCH = 28 if tier == "quick" else 280
+    for lo in range(0, len(cases), BATCH):
+        batch = cases[lo:lo + BATCH]
+        core.run_cases(batch)
+        for c in batch:
+            rep.count_case(c)
+            histogram(rep, c)
+            for ln in c.lines:
+                if ln.startswith("txn "):
+                    s = shape_of(parse_txn_line(ln))
+                    k = s[0] if s else "other"
+                    shapes[k] = shapes.get(k, 0) + 1
+        for c in batch:
+            hits = oracle(c)
+            for (i, desc, sig) in hits:
+                hits_by_sig[sig] = hits_by_sig.get(sig, 0) + 1
+                if core.handle_oracle_hit(rep, "C16", sig, c, desc, sig):
+                    found = True
+                    break
+            if found:
+                break
+            if c.meta.get("inconclusive"):
+                inconclusive += 1
+                continue
+            if c.diff() is not None:
+                core.handle_diff(rep, "C16", "correspondence", c)
                 found = True
                 break
-        if bad:
+        if found:
             break
-        if c.meta.get("inconclusive"):
-            inconclusive += 1
-            continue
-        if c.diff() is not None:
-            core.handle_diff(rep, "C16", "correspondence", c)
-            found = True
-            break
+    rep.cov["txn_shapes_issued"] = shapes
+    rep.cov["rule"] = ("scripts for the `etcd` suite: the fixed witness scripts of the concrete theorems; random histories of the four "
+                       "Kubernetes transaction shapes (correct / stale / zero expectations over existing, missing and deleted keys) "
+                       "interleaved with point, range, limited and count_only reads and prefix watches; scripts of grammar-generated "
+                       "unsupported transactions and near misses of the supported shapes, each followed by a full-range read. A script "
+                       "is counted as distinct by the hash of its text; all generated scripts contain writes and reads (non-trivial).")
     rep.cov["oracle_hits_by_signature"] = hits_by_sig
     rep.cov["scripts_cut_short_by_rpc_deadline"] = inconclusive
     rep.assumptions += [
         "this node is the leader and revision sync succeeds (production peer service over an election stub)",
         "sequential requests; engines memkv and badger; values other than the literal 'tombstone' (C03 finding)",
-        "expected revisions correct / stale / zero (not above the newest revision, not negative: those are answered with a drift error)",
+        "expected revisions correct / stale / zero; an expectation above the next revision or a negative one may be refused with a drift error (a refusal, not a wrong answer)",
         "reads at revisions <= the committed one; a refusal (error) of inverted bounds or range_end=\\0 is not counted as a wrong answer",
         "outside the quantifier, checked for model/implementation correspondence only: keys_only, sort order, min/max revision filters, "
         "count_only at an explicit revision, the partition-listing magic revision 1888, header revisions of failed transactions, "
